@@ -772,9 +772,8 @@ impl Rec {
         }
         let ib = r.info();
         let mut info_v = Vec::new();
-        for x in ib.iter(header).take(CAP) {
-            let (k, v) = x.map_err(|x| e("info", x))?;
-            let v = match v {
+        let iconv = |k: &str, v: Option<LV<'_>>| -> Result<Option<Val>, String> {
+            Ok(match v {
                 None => None,
                 Some(LV::Integer(n)) => Some(Val::Int(n)),
                 Some(LV::Float(x)) => Some(Val::Float(x.to_bits())),
@@ -813,7 +812,11 @@ impl Rec {
                     }
                     Some(Val::StrA(out.into_iter().map(|x| x.map(|c| c.into_owned())).collect()))
                 }
-            };
+            })
+        };
+        for x in ib.iter(header).take(CAP) {
+            let (k, v) = x.map_err(|x| e("info", x))?;
+            let v = iconv(k, v)?;
             info_v.push((k.to_string(), v));
         }
         if info_v.len() != ib.len() || ib.is_empty() != info_v.is_empty() {
@@ -825,8 +828,20 @@ impl Rec {
                 None => return Err(format!("info.get({k}) = None although iter yields it")),
                 Some(x) => x.map_err(|x| e("info.get", x))?,
             };
-            if got.is_some() != v.is_some() {
-                return Err(format!("info.get({k}) presence differs from iter"));
+            let got = iconv(k, got).map_err(|x| format!("info.get({k}): {x}"))?;
+            if got != *v {
+                return Err(format!("info.get({k:?}) = {got:?} but iter yields {v:?} for that key"));
+            }
+        }
+        // a key that is not there (incl. fragments of the keys and values that are) is not found
+        for (k, _) in &info_v {
+            for probe in [format!("{k}_"), k[..k.len() - 1].to_string(), k[1..].to_string()] {
+                if probe.is_empty() || info_v.iter().any(|(x, _)| *x == probe) {
+                    continue;
+                }
+                if let Some(x) = ib.get(header, &probe) {
+                    return Err(format!("info.get({probe:?}) = Some({:?}) although the record has no such key", x.map(|v| v.is_some()).map_err(|e| e.to_string())));
+                }
             }
         }
         let sb = r.samples().map_err(|x| e("samples", x))?;
@@ -921,6 +936,63 @@ impl Rec {
         }
         if n_series != format.len() {
             return Err(format!("series() yields {n_series} columns, column_names {}", format.len()));
+        }
+        // keyed lookups: Samples::select(key), Series::get(i), Sample::get(key) / get_index(j)
+        for (j, key) in format.iter().enumerate() {
+            let ser = match sb.select(header, key) {
+                None => return Err(format!("samples.select({key:?}) = None although column_names yields it")),
+                Some(x) => x.map_err(|x| e("select", x))?,
+            };
+            let name = ser.name(header).map_err(|x| e("selected series name", x))?;
+            if name != key {
+                return Err(format!("samples.select({key:?}) returns the series named {name:?}"));
+            }
+            for i in 0..samples.len() {
+                let row = samples[i].get(j).cloned().flatten();
+                let v = match ser.get(header, i) {
+                    None => None,
+                    Some(None) => None,
+                    Some(Some(x)) => Some(conv(x.map_err(|x| e("series.get", x))?)?),
+                };
+                if row != v {
+                    return Err(format!("samples.select({key:?}).get({i}) = {v:?} but the sample row has {row:?}"));
+                }
+            }
+        }
+        for (i, s) in sb.iter().take(CAP).enumerate() {
+            for (j, key) in format.iter().enumerate() {
+                let row = samples[i].get(j).cloned().flatten();
+                let by_key = match s.get(header, key) {
+                    None => None,
+                    Some(x) => match x.map_err(|x| e("sample.get", x))? {
+                        None => None,
+                        Some(v) => Some(conv(v)?),
+                    },
+                };
+                if by_key != row {
+                    return Err(format!("sample[{i}].get({key:?}) = {by_key:?} but iter yields {row:?} for that key"));
+                }
+                let by_index = match s.get_index(header, j) {
+                    None => None,
+                    Some(x) => match x.map_err(|x| e("sample.get_index", x))? {
+                        None => None,
+                        Some(v) => Some(conv(v)?),
+                    },
+                };
+                if by_index != row {
+                    return Err(format!("sample[{i}].get_index({j}) = {by_index:?} but iter yields {row:?}"));
+                }
+            }
+        }
+        for key in &format {
+            for probe in [format!("{key}_"), key[..key.len() - 1].to_string(), key[1..].to_string()] {
+                if probe.is_empty() || format.contains(&probe) {
+                    continue;
+                }
+                if sb.select(header, &probe).is_some() {
+                    return Err(format!("samples.select({probe:?}) is Some although there is no such column"));
+                }
+            }
         }
         notes.extend(notes_cell.into_inner());
         Ok(Rec { chrom, pos, ids, refb, alts, qual, filters, info: info_v, format, samples })
